@@ -173,7 +173,12 @@ func (c *RepoCache) lock(events chan BuildEvent) error {
 		return err
 	}
 
-	f, err := c.repo.LocalStorage().Create(lockfile)
+	// Create the lock file exclusively: if another process took the lock since the check
+	// above, fail instead of overwriting its lock.
+	f, err := c.repo.LocalStorage().OpenFile(lockfile, os.O_WRONLY|os.O_CREATE|os.O_EXCL, 0666)
+	if os.IsExist(err) {
+		return fmt.Errorf("the repository you want to access has just been locked by another process")
+	}
 	if err != nil {
 		return err
 	}
